@@ -47,6 +47,19 @@ P = {
          "That each built-in validator computes the right predicate is not decided.",
          TRUST + "Custom validators and Validate() methods are user code: decided is that they are called.",
          "§3 C04"),
+ "C05": (True,
+         "closure of the generic image under the writer's kind dispatch + single-path / who-may-store rules + dominating-condition rule on the collision switch (custom analyzer on SSA)",
+         "Decides four structural conditions the property cannot hold without, and says nothing about equality of the data: (a) every static type a "
+         "value.reify implementation can return - the image of Unpack into interface{} - has a kind normalizeValue accepts (dispatch simulated per "
+         "kind), nil included, so the generic image can be fed back in; (b) input maps are enumerated in one place, which accepts string- and "
+         "interface-kinded keys alike and names a key only after chasing the interface; (c) maps and structs hand every (name, value) pair to "
+         "normalizeSetField and nothing else in the normalize family stores a named setting; that function parses the name with the configured "
+         "separator, stores only where nothing non-nil is present, merges only object with object and reports every other collision as a duplicate; "
+         "(d) normalizeValue chases pointers and interfaces before it looks at kind or special type. Round-trip equality, numeric equality and "
+         "idempotence over all trees and representations are runtime-value facts and are NOT decided (this property was planned as not applicable; "
+         "the claim is limited to these necessary conditions, DESIGN.md section 8.9).",
+         TRUST,
+         "§8.9 (supersedes §3 C05)"),
  "C06": (True,
          "writer/reader sibling agreement: SSA expression normal forms over shared roles (E7, custom) + simulation of every reflect.Kind dispatch",
          "Decides the structural necessary condition behind 'struct -> Config -> struct is the identity': the two directions cannot drift apart. "
@@ -197,7 +210,6 @@ P = {
 }
 
 NA = {
- "C05": "Round-trip equality and idempotence over all data trees and Go representations are runtime-value facts; no structural clause in reach is a meaningful necessary condition (DESIGN §3 C05). Static analysis does not apply.",
 }
 PENDING = "not claimed in this revision: the static checker for this property is not built yet (DESIGN §7 build order)"
 
